@@ -305,6 +305,55 @@ pub fn oracle(case: &[u8], obs: &mut Obs) -> Result<(), Fail> {
         }
     }
 
+    // ------------------------------------------------ unchecked skippers (well-formed input only)
+    if !lossy_build {
+        if let Some(w) = &strict.lit {
+            match ctx {
+                1 => {
+                    // skipping over the literal must land exactly on the sibling
+                    let g = unsafe { sonic_rs::get_unchecked(&doc[..], &[1usize]) };
+                    match g {
+                        Ok(l) => ensure!(l.as_raw_str() == "\"sib\"", sig("wrong-text", "get_unchecked[1]"), "get_unchecked(..,[1]) on {:?} returned {:?}", show_bytes(&doc, 300), l.as_raw_str()),
+                        Err(e) => fail!(sig("rejects-valid", "get_unchecked[1]"), "get_unchecked(..,[1]) failed on {:?}: {e}", show_bytes(&doc, 300)),
+                    }
+                    let g = unsafe { sonic_rs::get_unchecked(&doc[..], &[0usize]) };
+                    match g {
+                        Ok(l) => ensure!(l.as_str() == Some(w.text.as_str()), sig("wrong-text", "get_unchecked[0]"), "get_unchecked(..,[0]).as_str on {:?} = {:?}", show_bytes(&doc, 300), l.as_str()),
+                        Err(e) => fail!(sig("rejects-valid", "get_unchecked[0]"), "get_unchecked(..,[0]) failed on {:?}: {e}", show_bytes(&doc, 300)),
+                    }
+                    let items: Vec<_> = unsafe { sonic_rs::to_array_iter_unchecked(&doc[..]) }.collect();
+                    ensure!(items.len() == 3 && items.iter().all(|x| x.is_ok()), sig("rejects-valid", "to_array_iter_unchecked"), "to_array_iter_unchecked on {:?} yields {} items, {} ok", show_bytes(&doc, 300), items.len(), items.iter().filter(|x| x.is_ok()).count());
+                    ensure!(items[0].as_ref().unwrap().as_str() == Some(w.text.as_str()) && items[1].as_ref().unwrap().as_raw_str() == "\"sib\"", sig("wrong-text", "to_array_iter_unchecked"), "to_array_iter_unchecked items wrong on {:?}", show_bytes(&doc, 300));
+                    // LazyValue::get on a lazy root uses the unchecked skipper as well
+                    if let Ok(l) = sonic_rs::from_slice::<LazyValue>(&doc) {
+                        let x = l.get(1usize);
+                        ensure!(x.as_ref().map(|x| x.as_raw_str()) == Some("\"sib\""), sig("wrong-text", "LazyValue::get(1)"), "LazyValue::get(1) on {:?} = {:?}", show_bytes(&doc, 300), x.map(|x| x.as_raw_str().to_string()));
+                    }
+                }
+                2 => {
+                    if w.text != "z" {
+                        let g = unsafe { sonic_rs::get_unchecked(&doc[..], &["z"]) };
+                        match g {
+                            Ok(l) => ensure!(l.as_raw_str() == "\"zzzzzzzzzzzzzzzzzzzzzzzzzzzzzzzzzzzzzzzz\"", sig("wrong-text", "get_unchecked.z"), "get_unchecked(..,[\"z\"]) on {:?} returned {:?}", show_bytes(&doc, 300), l.as_raw_str()),
+                            Err(e) => fail!(sig("rejects-valid", "get_unchecked.z"), "get_unchecked(..,[\"z\"]) failed on {:?}: {e}", show_bytes(&doc, 300)),
+                        }
+                    }
+                    let items: Vec<_> = unsafe { sonic_rs::to_object_iter_unchecked(&doc[..]) }.collect();
+                    ensure!(items.len() == 2 && items.iter().all(|x| x.is_ok()), sig("rejects-valid", "to_object_iter_unchecked"), "to_object_iter_unchecked on {:?} yields {} items", show_bytes(&doc, 300), items.len());
+                    ensure!(items[0].as_ref().unwrap().0 == w.text, sig("wrong-text", "to_object_iter_unchecked"), "to_object_iter_unchecked first key on {:?} = {:?}", show_bytes(&doc, 300), items[0].as_ref().unwrap().0);
+                }
+                3 => {
+                    let g = unsafe { sonic_rs::get_unchecked(&doc[..], &["k"]) };
+                    match g {
+                        Ok(l) => ensure!(l.as_str() == Some(w.text.as_str()), sig("wrong-text", "get_unchecked.k"), "get_unchecked(..,[\"k\"]).as_str on {:?} = {:?}", show_bytes(&doc, 300), l.as_str()),
+                        Err(e) => fail!(sig("rejects-valid", "get_unchecked.k"), "get_unchecked(..,[\"k\"]) failed on {:?}: {e}", show_bytes(&doc, 300)),
+                    }
+                }
+                _ => {}
+            }
+        }
+    }
+
     // ---------------------------------------------------------------------- lossy decoders
     // accepted iff grammar holds (and numbers finite); text = lossy decode of the target
     let lossy_want = Want { lit: if grammar_ok { target.as_ref() } else { None } };
